@@ -127,9 +127,107 @@ fn hash_case(f: u32, args: &Args) -> u64 {
     h
 }
 
+thread_local! {
+    /// where the last panic happened (file of the panic location)
+    static LAST_PANIC_FILE: std::cell::RefCell<String> = std::cell::RefCell::new(String::new());
+}
+
+/// does the property oracle still fail for `prop` on these arguments?  A panic raised by the
+/// harness itself (arguments outside what a generator produces) does not count.
+fn still_fails(f: u32, args: &Args, prop: &str) -> bool {
+    LAST_PANIC_FILE.with(|c| c.borrow_mut().clear());
+    let out = run_exec(f, args);
+    let harness_panic = LAST_PANIC_FILE.with(|c| { let s = c.borrow(); s.contains("harness") || s.contains("src/suites") || s.contains("src/io.rs") || s.contains("src/main.rs") });
+    if harness_panic {
+        return false;
+    }
+    let a2 = args.clone();
+    let o2 = out.clone();
+    match std::panic::catch_unwind(move || suites::oracle(f, &a2, &o2)) {
+        Ok(Some((p, _))) => p.split('+').any(|x| x == prop),
+        _ => false,
+    }
+}
+
+/// greedy minimisation of a failing case: delete chunks of every argument list, then lower values
+fn shrink(f: u32, mut args: Args, prop: &str, budget: std::time::Duration) -> Args {
+    let t0 = std::time::Instant::now();
+    if !still_fails(f, &args, prop) {
+        return args;
+    }
+    loop {
+        let mut progress = false;
+        for i in 0..args.len() {
+            let mut chunk = (args[i].len() / 2).max(1);
+            while chunk >= 1 && !args[i].is_empty() {
+                let mut start = 0;
+                while start < args[i].len() {
+                    if t0.elapsed() > budget {
+                        return args;
+                    }
+                    let end = (start + chunk).min(args[i].len());
+                    let mut cand = args.clone();
+                    cand[i].drain(start..end);
+                    if still_fails(f, &cand, prop) {
+                        args = cand;
+                        progress = true;
+                    } else {
+                        start += chunk;
+                    }
+                }
+                if chunk == 1 {
+                    break;
+                }
+                chunk /= 2;
+            }
+            for j in 0..args[i].len() {
+                let v = args[i][j];
+                for c in [0u64, 1, v / 2, v.saturating_sub(1)] {
+                    if c < args[i][j] {
+                        if t0.elapsed() > budget {
+                            return args;
+                        }
+                        let mut cand = args.clone();
+                        cand[i][j] = c;
+                        if still_fails(f, &cand, prop) {
+                            args = cand;
+                            progress = true;
+                        }
+                    }
+                }
+            }
+        }
+        if !progress {
+            return args;
+        }
+    }
+}
+
 fn main() {
-    std::panic::set_hook(Box::new(|_| {}));
+    std::panic::set_hook(Box::new(|info| {
+        let file = info.location().map(|l| l.file().to_string()).unwrap_or_default();
+        LAST_PANIC_FILE.with(|c| *c.borrow_mut() = file);
+    }));
     let argv: Vec<String> = std::env::args().collect();
+    if argv.len() >= 5 && argv[1] == "shrink" {
+        let f: u32 = argv[2].parse().expect("f");
+        let args = parse_args(&argv[3]);
+        // only oracles that are total functions of (arguments, outcome) for arbitrary arguments;
+        // the metamorphic ones (typestate, settings) are only meaningful on generated shapes
+        const SHRINKABLE: [u32; 31] = [101, 102, 103, 104, 105, 106, 107, 201, 202, 203, 204, 205, 251, 252, 253, 254, 255,
+            403, 404, 405, 406, 407, 408, 409, 501, 503, 504, 521, 522, 523, 524];
+        if !SHRINKABLE.contains(&f) {
+            return;
+        }
+        let small = shrink(f, args.clone(), &argv[4], std::time::Duration::from_secs(20));
+        let out = run_exec(f, &small);
+        println!("minimized_args={}", args_str(&small));
+        println!("minimized_out={}", args_str(&out));
+        if let Some((p, m)) = suites::oracle(f, &small, &out) {
+            println!("minimized_what={} {}", p, m);
+        }
+        return;
+    }
     if argv.len() >= 4 && argv[1] == "replay" {
         let f: u32 = argv[2].parse().expect("f");
         let args = parse_args(&argv[3]);
